@@ -41,7 +41,11 @@ def _run_one(scratch, h, timeout):
     cmd = ["cargo", "kani", "--harness", h["name"], "--output-format", "terse"] + h.get("args", [])
     t0 = time.time()
     try:
-        p = subprocess.run(cmd, cwd=os.path.join(scratch, "kani"), env=env, capture_output=True, text=True, timeout=timeout)
+        def _limits():
+            import resource
+            lim = int(os.environ.get("VERIF_KANI_MEM_GB", "12")) * (1 << 30)
+            resource.setrlimit(resource.RLIMIT_AS, (lim, lim))
+        p = subprocess.run(cmd, cwd=os.path.join(scratch, "kani"), env=env, capture_output=True, text=True, timeout=timeout, preexec_fn=_limits)
         out = p.stdout + p.stderr
         if "VERIFICATION:- SUCCESSFUL" in out:
             status = "success"
